@@ -858,7 +858,8 @@ def _future(ctx, index):
         other_lists -= fut_lists
         concat = None
         for n in iter_own(f.node):
-            if isinstance(n, ast.Assign) and norm(n.targets[0]).endswith(".body") and isinstance(n.value, ast.BinOp):
+            if (isinstance(n, ast.Assign) and norm(n.targets[0]).endswith(".body") or isinstance(n, ast.Return) and f is not index.funcs.get("cdd.compound.gen_utils.gen_module")) and isinstance(n.value, ast.BinOp):
+                # `mod.body = a + b + c`, or — in an extracted ordering helper — `return a + b + c`
                 order = []
 
                 def flat(e):
